@@ -18,8 +18,11 @@
    process_when_ctx).
 
    Channel / context identities are naturals; 0 is Subscriptions.Closed.
-   Go panics are the value [RPanic] (API call) or the flag [ss_crashed]
-   (panic inside processSubscriptions). *)
+   Go panics are the value [RPanic] (API call: undefined state). The flag
+   [ss_crashed] (panic inside processSubscriptions) and the field [ss_frozen]
+   (clock copy handed over by SetSchema) are not set by any function any more
+   since the fixes of WhenQuery-with-context and of SetSchema; they are kept
+   so that the code as it was can be modelled again by changing two lines. *)
 
 From Coq Require Import List Bool Arith NArith ZArith.
 From AMV Require Import Base.ListSet.
@@ -81,7 +84,8 @@ Inductive sevent :=
 | EProcess (act deact : list nat) (before live : list N) (qtick : N)
 | EQueueEnd
 | ETxEnd (v : view) (processed : bool)   (* marker, no effect on the manager *)
-| EPoll.
+| EPoll
+| EQueueTick (qtick : N).                (* canceled non-check transition: ProcessWhenQueue only *)
 
 (* ------------------------------------------------------------ bindings *)
 
@@ -352,8 +356,9 @@ Definition sub_when (s : sst) (v : view) (neg : bool) (sts : list nat) (ctx : op
                   wb_flags := fold_left (fun fl x => aset fl x (is x)) sts [];
                   wb_total := length sts; wb_matched := Z.of_nat matched; wb_ctx := ctx;
                   wb_idx := sts |} in
-      (* When appends the binding to whenCtx once per state, WhenNot once *)
-      let listings := if neg then [id] else repeat id (length sts) in
+      (* one listing per context (before the fix of When: one per state, which
+         made processWhenCtx collect the binding twice) *)
+      let listings := [id] in
       let wc := match ctx with Some c => cappend (ss_wctx s) c listings | None => ss_wctx s end in
       (set_alloc (set_when s (ss_wb s ++ [b]) wc (ss_closed s)) (S id) (ss_allctx s), RChan id)
     end.
@@ -483,19 +488,20 @@ Definition process_when_queue (s : sst) (qt : N) : sst :=
            (fold_left (fun cl p => if hit p then close cl (fst p) else cl) (ss_wq s) (ss_closed s))
            (ss_crashed s).
 
-(* ProcessWhenQuery. whenQueryCtx is a nil map: ranging over it is a no-op,
-   gcWhenQueryBinding of a binding WITH a context writes to it -> panic *)
+(* ProcessWhenQuery. processWhenQueryCtx collects the bindings of ended
+   contexts first; the main loop collects a binding when its predicate holds
+   or its context has ended - so one pass over the bindings that closes on
+   (predicate || context ended) has the same outcome, and sm.whenQueryCtx
+   needs no counterpart here. *)
 Definition process_when_query (s : sst) (live : list N) : sst :=
   let cl := sclock s live in
   fold_left (fun st b =>
     if ss_crashed st then st
     else if negb (qfn_eval (qb_fn b) cl) && negb (ctx_done st (qb_ctx b)) then st
-    else match qb_ctx b with
-         | Some _ => set_misc st (ss_qb st) (ss_wq st) (ss_qe st) (ss_sctx st) (ss_closed st) true
-         | None =>
-           set_misc st (filter (fun x => negb (Nat.eqb (qb_id x) (qb_id b))) (ss_qb st))
-                    (ss_wq st) (ss_qe st) (ss_sctx st) (close (ss_closed st) (qb_id b)) (ss_crashed st)
-         end) (ss_qb s) s.
+    else
+      set_misc st (filter (fun x => negb (Nat.eqb (qb_id x) (qb_id b))) (ss_qb st))
+               (ss_wq st) (ss_qe st) (ss_sctx st) (close (ss_closed st) (qb_id b)) (ss_crashed st))
+    (ss_qb s) s.
 
 (* ProcessWhenQueueEnds *)
 Definition process_queue_ends (s : sst) : sst :=
@@ -535,6 +541,7 @@ Definition dispose (s : sst) : sst :=
   let cl3 := fold_left (fun cl p => close cl (fst p)) (ss_wq s) cl2 in
   let cl4 := fold_left close (ss_qe s) cl3 in
   let cl5 := fold_left close (ss_allctx s) cl4 in
+  let cl5 := fold_left (fun cl b => close cl (qb_id b)) (ss_qb s) cl5 in
   set_env (set_misc s (ss_qb s) (ss_wq s) (ss_qe s) (ss_sctx s) cl5 (ss_crashed s))
           (ss_frozen s) (ss_done s) true.
 
@@ -573,9 +580,7 @@ Definition do_op (s : sst) (v : view) (o : sop) : sst * opret :=
       let s1 := set_alloc (set_misc s (ss_qb s ++ [{| qb_id := id; qb_fn := f; qb_ctx := ctx |}])
                                     (ss_wq s) (ss_qe s) (ss_sctx s) (ss_closed s) (ss_crashed s))
                           (S id) (ss_allctx s) in
-      (* sm.whenQueryCtx[ctx] = append(...) on the nil map panics AFTER the
-         binding was appended to sm.whenQuery *)
-      match ctx with Some _ => (s1, RPanic) | None => (s1, RChan id) end
+      (s1, RChan id)
   | OWhenQueue t =>
     if ss_disposed s || (t <=? v_qtick v)%N then (s, RChan 0)
     else
@@ -601,7 +606,9 @@ Definition do_op (s : sst) (v : view) (o : sop) : sst * opret :=
       end
   | OCancel c => (set_env s (ss_frozen s) (if mem c (ss_done s) then ss_done s else c :: ss_done s)
                           (ss_disposed s), RNone)
-  | OSetSchema => (set_env s (Some (v_clock v)) (ss_done s) (ss_disposed s), RNone)
+  (* SetSchema hands the manager the machine's own clock map again (before
+     the fix: a copy, [set_env s (Some (v_clock v)) ...]) *)
+  | OSetSchema => (s, RNone)
   | ODispose => (dispose s, RNone)
   | ONop => (s, RNone)
   end.
@@ -615,6 +622,7 @@ Definition step (s : sst) (e : sevent) : sst :=
   | EQueueEnd => process_queue_ends s
   | ETxEnd _ _ => s
   | EPoll => s
+  | EQueueTick qt => process_when_queue s qt
   end.
 
 Fixpoint ret_of (l : list (nat * opret)) (k : nat) : opret :=
